@@ -276,7 +276,7 @@ class C09(Check):
     ]
 
     def budget(self, tier, escalated):
-        n = 400 if tier == 'quick' else 5000
+        n = 300 if tier == 'quick' else 5000
         return n * (3 if escalated and tier == 'quick' else 1)
 
     def nontrivial(self, sample):
@@ -549,8 +549,11 @@ class C09(Check):
                     f'{N} further requests of kind {kind} grew the number of live objects from {a} to {b} and the '
                     f'traced memory from {ma} to {mb} bytes',
                     dict(kind='growth', fail_kind=kind, n=N)))
+        big = set(fail_kinds if n >= 2000 else rng.sample(fail_kinds, 4))
         for kind in fail_kinds:
             for N in sizes:
+                if N >= 1000 and kind not in big:
+                    continue
                 evals += 1
                 envs, inputs = self.reference().measure('retention', kind, N, rng.randrange(1 << 30))
                 if envs > self.K_BOUND or inputs > self.K_BOUND:
@@ -570,20 +573,27 @@ class C09(Check):
         i = data['input']
         if i.get('kind') == 'class-state':
             import random
-            return dict(input=i, changed=self._class_state('-', i['n'], random.Random(0)))
+            changed = self.reference().measure('class-state', '-', i['n'], 0)
+            self.close_reference()
+            return dict(changed=changed, violates=bool(changed), input=i)
         if i.get('kind') == 'growth':
             import random
-            a, b, ma, mb = self._growth(i['fail_kind'], i['n'], random.Random(0))
+            a, b, ma, mb = self.reference().measure('growth', i['fail_kind'], i['n'], 0)
+            self.close_reference()
             return dict(input=i, objects_after_n=a, objects_after_2n=b, bytes_after_n=ma, bytes_after_2n=mb,
                         violates=self.grew(i['n'], a, b, ma, mb))
         if i.get('kind') == 'retention':
             import random
-            envs, inputs = self._retention(i['fail_kind'], i['n'], random.Random(0))
+            envs, inputs = self.reference().measure('retention', i['fail_kind'], i['n'], 0)
+            self.close_reference()
             return dict(input=i, live_environs=envs, live_inputs=inputs, bound=self.K_BOUND,
                         violates=envs > self.K_BOUND or inputs > self.K_BOUND)
         d = dec(i)
         spec, hist = self._spec(d['app']), [dict(x) for x in d['hist']]
         try:
-            return dict(input=i, oracle=self._oracle(spec, hist))
+            verdict = zoo.watchdog(lambda: self._oracle(spec, hist), 60)
+            return dict(oracle=verdict, violates=bool(verdict), input=i)
+        except zoo.HangB:
+            return dict(oracle=[['hang', 'history did not finish within 60 s']], violates=True, input=i)
         finally:
             self.close_reference()
